@@ -116,6 +116,12 @@ class PhaseField(_Simu):
         self.__resumeLoading = ""
         self.__resumeIter = ""
 
+        # convergence informations of the last Solve (Save_Iter stores them: the initial
+        # state can be saved before the first Solve)
+        self.__Niter = 0
+        self.__convIter = 0.0
+        self.__timeIter = 0.0
+
         self.__displacement_solver = self.solver
 
         self._Solver_Set_PETSc4Py_Options(
